@@ -44,6 +44,8 @@ async def party_main(world, p, prog, case):
             env_[out] = a[0] // a[1]
         elif opn == 'mod':
             env_[out] = a[0] % a[1]
+        elif opn == 'mod_method':
+            env_[out] = secpoly.mod(a[0], a[1])
         elif opn == 'divmod':
             q, r = divmod(a[0], a[1])
             env_[out[0]], env_[out[1]] = q, r
@@ -136,7 +138,7 @@ def reference(prog):
             env_[out] = +a[0]
         elif opn == 'floordiv':
             env_[out] = a[0] // a[1]
-        elif opn == 'mod':
+        elif opn in ('mod', 'mod_method'):
             env_[out] = a[0] % a[1]
         elif opn == 'divmod':
             env_[out[0]], env_[out[1]] = divmod(a[0], a[1])
@@ -283,7 +285,32 @@ def gen(rng, cfg, tier='quick', kf=False):
             else:
                 stmts.append(['plain', v, [], {'coeffs': c}])
             PV.append(v)
+        slack = None
+        if rng.random() < 0.15:
+            # a modulus whose array is longer than its degree (only the length bound is public), and a dividend that
+            # is SHORTER than that array but of at least the modulus' degree: reduction must not be skipped
+            db = rng.randint(1, 2)
+            cb = [rng.randrange(P) for _ in range(db)] + [rng.randrange(1, P)] + [0] * rng.randint(2, 5)
+            la = rng.randint(db + 1, len(cb) - 1)
+            ca = [rng.randrange(P) for _ in range(la - 1)] + [rng.randrange(1, P)]
+            va, vb = fresh(), fresh()
+            for v_, c_ in ((va, ca), (vb, cb)):
+                if rng.random() < 0.5:
+                    stmts.append(['input', v_, [], {'coeffs': c_, 'sender': rng.randrange(cfg.m), 'dummy': [rng.randrange(P) for _ in c_]}])
+                else:
+                    stmts.append(['const', v_, [], {'coeffs': c_}])
+                PV.append(v_)
+            slack = (va, vb)
         secure = {s[1] for s in stmts if s[0] != 'plain'}
+        if slack is not None:
+            o_ = fresh()
+            if rng.random() < 0.5:
+                stmts.append(['mod_method', o_, list(slack), {}])
+            else:
+                stmts.append(['powmod', o_, list(slack), {'n': rng.choice((1, 2, 2, 3))}])
+            PV.append(o_)
+            secure.add(o_)
+            must_out.append(o_)
         try:
             env_ = reference({'p': P, 'stmts': stmts})
         except Exception:
@@ -292,7 +319,7 @@ def gen(rng, cfg, tier='quick', kf=False):
         tries = 0
         while n_ops > 0 and tries < 40:
             tries += 1
-            opn = rng.choice(('add', 'sub', 'mul', 'neg', 'pos', 'floordiv', 'mod', 'divmod', 'lshift', 'rshift', 'pow', 'powmod',
+            opn = rng.choice(('add', 'sub', 'mul', 'neg', 'pos', 'floordiv', 'mod', 'mod_method', 'divmod', 'lshift', 'rshift', 'pow', 'powmod',
                               'invert', 'gcd', 'gcdext', 'degree', 'monic', 'reverse', 'truncate', 'getitem', 'call', 'call_secret',
                               'lt', 'le', 'eq', 'ne', 'ge', 'gt', 'is_irreducible', 'if_else', 'if_swap', 'copy'))
             x = rng.choice(PV)
@@ -300,23 +327,23 @@ def gen(rng, cfg, tier='quick', kf=False):
             pr = {}
             args = [x]
             out = fresh()
-            if opn in ('add', 'sub', 'mul', 'floordiv', 'mod', 'divmod', 'gcd', 'gcdext', 'lt', 'le', 'eq', 'ne', 'ge', 'gt', 'invert',
+            if opn in ('add', 'sub', 'mul', 'floordiv', 'mod', 'mod_method', 'divmod', 'gcd', 'gcdext', 'lt', 'le', 'eq', 'ne', 'ge', 'gt', 'invert',
                        'powmod', 'if_else', 'if_swap'):
                 args = [x, y]
                 if x not in secure and y not in secure:
                     continue
-                if opn in ('gcd', 'gcdext', 'invert', 'powmod', 'if_else', 'if_swap') and not (x in secure and y in secure):
+                if opn in ('gcd', 'gcdext', 'invert', 'powmod', 'mod_method', 'if_else', 'if_swap') and not (x in secure and y in secure):
                     continue
                 if opn in ('lt', 'le', 'eq', 'ne', 'ge', 'gt') and x not in secure:
                     continue      # plain polynomial on the left: gfpx's own comparison answers with a plain bool
             elif x not in secure:
                 continue
-            if opn in ('floordiv', 'mod', 'divmod', 'invert', 'powmod') and env_[args[1]].degree() < 0:
+            if opn in ('floordiv', 'mod', 'mod_method', 'divmod', 'invert', 'powmod') and env_[args[1]].degree() < 0:
                 continue
-            if opn in ('monic', 'gcd', 'gcdext', 'invert', 'floordiv', 'mod', 'divmod', 'powmod', 'is_irreducible') \
+            if opn in ('monic', 'gcd', 'gcdext', 'invert', 'floordiv', 'mod', 'mod_method', 'divmod', 'powmod', 'is_irreducible') \
                     and any(env_[v_].degree() < 0 for v_ in args):
                 continue          # zero polynomial: known finding secpoly-monic-zero-livelock
-            if opn in ('floordiv', 'mod', 'divmod', 'invert', 'powmod', 'gcd', 'gcdext'):
+            if opn in ('floordiv', 'mod', 'mod_method', 'divmod', 'invert', 'powmod', 'gcd', 'gcdext'):
                 # divisors given by a literal coefficient list of length >= 2 (a length-1 divisor makes the
                 # remainder an EMPTY secure array, on which several operations assert/raise: precondition)
                 lit = {s_[1]: len(s_[3]['coeffs']) for s_ in stmts if s_[0] in ('input', 'const', 'plain')}
@@ -386,7 +413,7 @@ def gen(rng, cfg, tier='quick', kf=False):
             n_ops -= 1
         cand = [v for v in PV + SV if v in secure or v in SV]
         outs = cand[-3:] + [v for v in must_out if v not in cand[-3:]]
-        if must_out:
+        if any(s_[0] == 'gcdext' for s_ in stmts):
             tags.add('gcdext')
         if outs:
             return {'family': NAME, 'p': P, 'stmts': stmts, 'outputs': outs, 'tags': sorted(tags)}
